@@ -39,6 +39,7 @@ ASSUMPTIONS = [
     'finite values, no sub-normal floats; the index channel has one value per frame',
     'channel identities are str (bytes identities cannot be formatted by the heading writer), free of spaces, dots and colons; '
     'units free of spaces and colons; long names free of colons',
+    'channels (DATE, D) and (TIME, HHMMSS), which the reader documents as date / time typed curves, are not generated',
     'float format restricted to <.precision><f|e|g> (the writer accepts any string starting with .digits)',
     'allowance on top of half a unit of the last printed digit: the reduction is computed by numpy in the arithmetic of the '
     'source dtype (float32 for float32, binary64 otherwise): mean n*eps*max|x|, median 2*eps*max|x| with eps 2^-23 / 2^-52; '
@@ -213,6 +214,9 @@ def cases(draw, max_channels=6, max_frames=25):
                 ch['name'] = nm
         else:
             ch['units'] = draw(st.sampled_from(RETYPEABLE_UNITS))
+    for ch in channels:  # the reader types curves (DATE, D) and (TIME, HHMMSS) as dates / times, not as numbers
+        if (ch['name'], ch['units']) in (('DATE', 'D'), ('TIME', 'HHMMSS')):
+            ch['units'] += 'X'
     # subset
     sk = draw(st.integers(0, 5))
     all_names = [c['name'] for c in channels]
